@@ -208,40 +208,62 @@ struct UserFlavor {
     log: Rc<RefCell<Vec<J>>>,
     bytes: Rc<RefCell<Vec<u8>>>,
     block: bool,
+    /// refuse every write that would take the total beyond this many bytes (usize::MAX = never)
+    room: usize,
+    /// finalize reports an error
+    fin_fail: bool,
+}
+impl UserFlavor {
+    fn take(&self, n: usize) -> postcard::Result<()> {
+        if self.bytes.borrow().len() + n > self.room {
+            self.log.borrow_mut().push(json!(["x", n]));
+            return Err(postcard::Error::SerializeBufferFull);
+        }
+        Ok(())
+    }
+    fn fin(&self) -> postcard::Result<()> {
+        self.log.borrow_mut().push(json!(["f"]));
+        if self.fin_fail {
+            // any error of the user's choosing: serialize_with_flavor maps it
+            return Err(postcard::Error::SerdeSerCustom);
+        }
+        Ok(())
+    }
 }
 struct UserPush(UserFlavor);
 struct UserBlock(UserFlavor);
 impl Flavor for UserPush {
     type Output = ();
     fn try_push(&mut self, b: u8) -> postcard::Result<()> {
+        self.0.take(1)?;
         self.0.log.borrow_mut().push(json!(["p", b]));
         self.0.bytes.borrow_mut().push(b);
         Ok(())
     }
     fn finalize(self) -> postcard::Result<()> {
-        self.0.log.borrow_mut().push(json!(["f"]));
-        Ok(())
+        self.0.fin()
     }
 }
 impl Flavor for UserBlock {
     type Output = ();
     fn try_push(&mut self, b: u8) -> postcard::Result<()> {
+        self.0.take(1)?;
         self.0.log.borrow_mut().push(json!(["p", b]));
         self.0.bytes.borrow_mut().push(b);
         Ok(())
     }
     fn try_extend(&mut self, d: &[u8]) -> postcard::Result<()> {
+        self.0.take(d.len())?;
         self.0.log.borrow_mut().push(json!(["e", jb(d)]));
         self.0.bytes.borrow_mut().extend_from_slice(d);
         Ok(())
     }
     fn finalize(self) -> postcard::Result<()> {
-        self.0.log.borrow_mut().push(json!(["f"]));
-        Ok(())
+        self.0.fin()
     }
 }
-fn user_flavor_event(s: &Shape, v: &Val, block: bool, alg: Option<&NamedAlg>) -> J {
-    let uf = UserFlavor { log: Default::default(), bytes: Default::default(), block };
+fn user_flavor_event(s: &Shape, v: &Val, block: bool, alg: Option<&NamedAlg>, room: usize, fin_fail: bool) -> J {
+    let uf = UserFlavor { log: Default::default(), bytes: Default::default(), block, room, fin_fail };
     let sv = SV(s, v);
     let r = catch(|| match (block, alg) {
         (false, None) => postcard::serialize_with_flavor(&sv, UserPush(uf.clone())),
@@ -255,7 +277,7 @@ fn user_flavor_event(s: &Shape, v: &Val, block: bool, alg: Option<&NamedAlg>) ->
         Err(p) => json!(format!("panic:{p}")),
     };
     let calls = uf.log.borrow().clone();
-    json!({"op":"userflavor","shape":s.to_json(),"value":v.to_json(),"block":block as u8,
+    json!({"op":"userflavor","shape":s.to_json(),"value":v.to_json(),"block":block as u8,"room": if room == usize::MAX { -1 } else { room as i64 },"fin_fail":fin_fail as u8,
            "stack": stack_json(if alg.is_some() { Stack::Crc } else { Stack::Plain }, alg),
            "status":status,"calls":calls})
 }
@@ -368,6 +390,16 @@ pub fn run(a: &Args) {
             };
             outs.push(json!({"storage":"size","cap":-1,"res":sz}));
         }
+        if stack == Stack::Crc {
+            // the size counter under a modifier: the checksum bytes are counted too
+            let a_ = alg.unwrap();
+            let sz = match catch(|| with_digest!(a_, |d| postcard::serialize_with_flavor(&sv, sf::crc::CrcModifier::new(sf::Size::default(), d)))) {
+                Ok(Ok(n)) => json!({"ok":1,"size":n}),
+                Ok(Err(e)) => json!({"ok":0,"err":errname(&e)}),
+                Err(p) => json!({"ok":0,"err":"panic","at":p}),
+            };
+            outs.push(json!({"storage":"size","cap":-1,"res":sz}));
+        }
         let caps: Vec<usize> = if full_len <= 40 { (0..=full_len + 2).collect() } else {
             let mut c = vec![0, 1, 2, full_len / 2, 253, 254, 255, 256, 257, full_len - 2, full_len - 1, full_len, full_len + 1, full_len + 2];
             for _ in 0..6 { c.push(r.gen_range(0..full_len)); }
@@ -383,8 +415,12 @@ pub fn run(a: &Args) {
         out.ev(ev);
         // C20: a user flavour receives exactly the plain encoding, through whichever methods the encoder chooses
         if !long && i % 3 == 0 {
-            out.ev(user_flavor_event(&s, &v, i % 2 == 0, None));
-            out.ev(user_flavor_event(&s, &v, i % 2 == 1, Some(&algs[r.gen_range(0..algs.len())])));
+            out.ev(user_flavor_event(&s, &v, i % 2 == 0, None, usize::MAX, false));
+            out.ev(user_flavor_event(&s, &v, i % 2 == 1, Some(&algs[r.gen_range(0..algs.len())]), usize::MAX, false));
+            // a user flavour that runs out of room after k bytes, or whose finalize fails
+            let k = r.gen_range(0..=full_len.min(20));
+            out.ev(user_flavor_event(&s, &v, i % 4 < 2, None, k, false));
+            out.ev(user_flavor_event(&s, &v, i % 2 == 0, if i % 6 == 0 { Some(&algs[0]) } else { None }, usize::MAX, true));
         }
     }
     out.flush();
